@@ -11,6 +11,7 @@ import (
 	"runtime"
 	"time"
 
+	va "pipelined.dev/signal/verifatomic"
 	"verif/mc/core"
 	"verif/mc/dyn"
 	"verif/mc/schedx"
@@ -39,7 +40,6 @@ type c19Case struct {
 	Choices []int  `json:"choices"`
 	Race    bool   `json:"race,omitempty"`
 }
-
 
 type c19H struct {
 	cfg    c19Cfg
@@ -476,6 +476,8 @@ func (h *c19InstH) Key() (uint64, bool) { return 0, false }
 func c19Explore(c *core.Ctx, cfg c19Cfg, race bool, only []int, onFail func(cs c19Case, fs []F)) (e *schedx.Explorer, rep map[string]any) {
 	old := runtime.GOMAXPROCS(1)
 	defer runtime.GOMAXPROCS(old)
+	va.Hook = func(op string) { schedx.Point(op) } // atomic operations of the library are scheduling points
+	defer func() { va.Hook = nil }()
 	start := time.Now()
 	var h schedx.Harness = &c19H{cfg: cfg, t: typeByName(cfg.T)}
 	if cfg.Mode != "" {
